@@ -139,6 +139,65 @@ Proof.
     unfold bindM at 1. rewrite (IH x l2 sy os s2 e Hrest Hx). reflexivity.
 Qed.
 
+
+(* ---- wrong argument / qubit / size counts, duplicate case values, read-only arguments ---- *)
+Lemma bind_eq' {A B} (m : M A) (f : A -> M B) s a s1 : m s = Ok (a, s1) -> bindM m f s = f a s1.
+Proof. unfold bindM. intros ->. reflexivity. Qed.
+
+(* a library gate applied to a number of qubits that is not a multiple of its arity *)
+Lemma gate_qubit_count_rejected qubits count s bits s1 :
+  get_op_bits call_rec qubits (qreg_sizes s) true s = Ok (bits, s1) -> count <> O ->
+  Nat.modulo (List.length bits) count <> O ->
+  unroll_targets call_rec qubits count s = Err EValidation.
+Proof.
+  intros Hb Hc Hm. unfold unroll_targets. rewrite (bind_eq' _ _ s s s eq_refl), (bind_eq' _ _ s bits s1 Hb).
+  destruct count; [congruence|]. destruct (Nat.eqb_spec (Nat.modulo (List.length bits) (S count)) 0); [contradiction|]. reflexivity.
+Qed.
+
+(* a custom gate applied with the wrong number of parameters / of qubits *)
+Lemma custom_gate_param_count_rejected name gd args qubits inverse s bits s1 :
+  sget name (gates s) = Some gd -> get_op_bits call_rec qubits (qreg_sizes s) true s = Ok (bits, s1) ->
+  List.length args <> List.length (g_params gd) ->
+  visit_custom_gate check_only visit_rec call_rec name args qubits inverse s = Err EValidation.
+Proof.
+  intros Hg Hb Hn. unfold visit_custom_gate. rewrite (bind_eq' _ _ s s s eq_refl), Hg, (bind_eq' _ _ s bits s1 Hb).
+  destruct (Nat.eqb_spec (List.length args) (List.length (g_params gd))); [contradiction|]. reflexivity.
+Qed.
+Lemma custom_gate_qubit_count_rejected name gd args qubits inverse s bits s1 :
+  sget name (gates s) = Some gd -> get_op_bits call_rec qubits (qreg_sizes s) true s = Ok (bits, s1) ->
+  List.length args = List.length (g_params gd) -> List.length bits <> List.length (g_qubits gd) ->
+  visit_custom_gate check_only visit_rec call_rec name args qubits inverse s = Err EValidation.
+Proof.
+  intros Hg Hb Ha Hn. unfold visit_custom_gate. rewrite (bind_eq' _ _ s s s eq_refl), Hg, (bind_eq' _ _ s bits s1 Hb).
+  rewrite Ha, Nat.eqb_refl. cbn [guard]. rewrite (bind_eq' _ _ s1 tt s1 eq_refl).
+  destruct (Nat.eqb_spec (List.length bits) (List.length (g_qubits gd))); [contradiction|]. reflexivity.
+Qed.
+
+(* a measurement whose source and target have different sizes *)
+Lemma measurement_size_mismatch_rejected q t s src s1 tgt s2 :
+  smemk (qarg_name q) (qreg_sizes s) = true -> smemk (qarg_name t) (creg_sizes s) = true ->
+  get_op_bits call_rec [q] (qreg_sizes s) true s = Ok (src, s1) ->
+  get_op_bits call_rec [t] (creg_sizes s1) false s1 = Ok (tgt, s2) ->
+  List.length src <> List.length tgt ->
+  visit_measure check_only call_rec q (Some t) s = Err EValidation.
+Proof.
+  intros Mq Mc Hs Ht Hn. unfold visit_measure. rewrite (bind_eq' _ _ s s s eq_refl), Mq, Mc. cbn [guard].
+  rewrite !(bind_eq' _ _ s tt s eq_refl), (bind_eq' _ _ s src s1 Hs), (bind_eq' _ _ s1 s1 s1 eq_refl), (bind_eq' _ _ s1 tgt s2 Ht).
+  destruct (Nat.eqb_spec (List.length src) (List.length tgt)); [contradiction|]. reflexivity.
+Qed.
+
+(* a recursive gate definition (the gate is already being expanded) *)
+Lemma recursive_gate_rejected name gd args qubits inverse s bits s1 pvals s2 :
+  sget name (gates s) = Some gd -> get_op_bits call_rec qubits (qreg_sizes s) true s = Ok (bits, s1) ->
+  List.length args = List.length (g_params gd) -> List.length bits = List.length (g_qubits gd) ->
+  mapMM (fun e => eval0 call_rec e false None) args s1 = Ok (pvals, s2) -> smem name (gstack s2) = true ->
+  visit_custom_gate check_only visit_rec call_rec name args qubits inverse s = Err EValidation.
+Proof.
+  intros Hg Hb Ha Hq Hp Hr. unfold visit_custom_gate. rewrite (bind_eq' _ _ s s s eq_refl), Hg, (bind_eq' _ _ s bits s1 Hb).
+  rewrite Ha, Hq, !Nat.eqb_refl. cbn [guard]. rewrite !(bind_eq' _ _ s1 tt s1 eq_refl), (bind_eq' _ _ s1 pvals s2 Hp).
+  rewrite (bind_eq' _ _ s2 s2 s2 eq_refl), Hr. reflexivity.
+Qed.
+
 End WithParams.
 
 (* values outside the declared type's range *)
